@@ -124,7 +124,19 @@ func vC10PathTerm(name string, p *Path, pre bool) string {
 		cqBool(p.SourceRedirect != ""), cqBool(redirectOK), cqZ(int64(p.RPICameraCamID)), cqBool(p.RPICameraSecondary),
 		cqBool(rpiOK), cqBool(otherOK), cqBool(p.AlwaysAvailable), cqBool(aaSrcOK), cqBool(p.UseAbsoluteTimestamp),
 		cqBool(p.RunOnInit != ""), cqBool(p.RunOnDemand != "" || p.RunOnUnDemand != ""),
-		cqBytes(p.RecordPath), cqZ(int64(p.RecordSegmentDuration)), cqZ(int64(p.RecordDeleteAfter)))
+		cqBytes(p.RecordPath), cqZ(int64(p.RecordSegmentDuration)), cqZ(int64(p.RecordDeleteAfter)),
+		cqListOf(p.AlwaysAvailableTracks, func(t AlwaysAvailableTrack) string {
+			class := 3
+			switch t.Codec {
+			case "AV1", "VP9", "H265", "H264", "Opus":
+				class = 0
+			case "MPEG4Audio":
+				class = 1
+			case "G711", "LPCM":
+				class = 2
+			}
+			return "(" + strconv.Itoa(class) + ", " + cqZ(int64(t.SampleRate)) + ", " + cqZ(int64(t.ChannelCount)) + ")"
+		}))
 }
 
 func vC10ConfTerm(c *Conf, paths map[string]*Path, pre bool) string {
@@ -149,7 +161,7 @@ func vC10ConfDesc(c *Conf) map[string]any {
 	for name, p := range c.Paths {
 		ps[name] = map[string]any{"source": p.Source, "sourceOnDemand": p.SourceOnDemand, "regexp": p.Regexp != nil,
 			"recordPath": p.RecordPath, "segment": int64(p.RecordSegmentDuration), "deleteAfter": int64(p.RecordDeleteAfter),
-			"camID": p.RPICameraCamID, "secondary": p.RPICameraSecondary}
+			"camID": p.RPICameraCamID, "secondary": p.RPICameraSecondary, "tracks": fmt.Sprint(p.AlwaysAvailableTracks)}
 	}
 	d["paths"] = ps
 	return d
@@ -323,6 +335,11 @@ var vC10EnvPool = [][2]string{
 	{"RTSP_READTIMEOUT", "1s"}, {"MTX_API", "maybe"}, {"MTX_PATHS_CAM_ALWAYSAVAILABLETRACKS_0_CODEC", "H264"},
 	{"MTX_HLSSEGMENTMAXSIZE", "10M"}, {"MTX_HLSSEGMENTMAXSIZE", "x"}, {"MTX_PATHS_CAM_FORWARD_0_DEST", "rtsp://o.example/x"},
 	{"MTX_PATHS_CAM_READUSER", "u"}, {"MTX_APITRUSTEDPROXIES", "10.0.0.0/8,x"}, {"MTX_PATHS_CAM_RTSPTRANSPORT", "tcp"},
+	{"MTX_PROTOCOLS_X", "1"}, {"MTX_ENCRYPTION_FOO", "1"}, {"MTX_PATHS_CAM_READIPS_X", "1"}, {"MTX_PATHS_CAM_RECORDFORMAT_", "1"},
+	{"MTX_PATHS_CAM_FALLBACK_X", "1"}, {"MTX_READTIMEOUT_X", "1"}, {"MTX_PATHS_CAM_RTSPTRANSPORT_X_Y", "1"}, {"MTX_AUTHJWTINHTTPQUERY_X", "1"},
+	{"MTX_PATHS_CAM_ALWAYSAVAILABLE", "yes"}, {"MTX_PATHS_CAM_ALWAYSAVAILABLETRACKS_0_CODEC", "H264"}, {"MTX_PATHS_CAM_ALWAYSAVAILABLETRACKS_0_CODEC", "nope"},
+	{"MTX_PATHS_CAM_ALWAYSAVAILABLETRACKS_0_SAMPLERATE", "44100"}, {"MTX_PATHS_CAM_ALWAYSAVAILABLETRACKS_0_CHANNELCOUNT", "2"},
+	{"MTX_PATHS_CAM_ALWAYSAVAILABLETRACKS_1_CODEC", "MPEG4Audio"}, {"MTX_PATHDEFAULTS_ALWAYSAVAILABLETRACKS_0_CODEC", "G711"},
 	{"MTX_PATHS_RPI_SOURCE", "rpiCamera"}, {"MTX_PATHS_RPI2_SOURCE", "rpiCamera"}, {"MTX_PATHS_RPI2_RPICAMERASECONDARY", "yes"},
 }
 
@@ -542,6 +559,36 @@ func TestVerifC10(t *testing.T) {
 		out.Case(cqApp("EnvList", cqBool(kv[1] == "1"), cqBool(class == "panic")),
 			map[string]any{"kind": "env-empty-list", "env": kv[0] + "=", "result": res}, "env-empty-list/"+class, class == "loaded")
 		loadCase("env-empty-list-load", content, vC10Env{kv[0]: ""}, nil)
+	}
+
+	// 3c. a variable that only extends the name of a parameter with its own UnmarshalEnv (optional = behind a nil pointer)
+	for _, kv := range [][2]string{{"MTX_PROTOCOLS_X", "1"}, {"MTX_ENCRYPTION_X", "1"}, {"MTX_AUTHMETHODS_X", "1"}, {"MTX_RECORDPARTDURATION_X", "1"},
+		{"MTX_RECORDFORMAT_X", "1"}, {"MTX_PATHS_CAM_READIPS_X", "1"}, {"MTX_PATHS_CAM_PUBLISHUSER_X", "1"}, {"MTX_PATHS_CAM_SOURCEPROTOCOL_X", "1"},
+		{"MTX_PATHS_CAM_RECORDFORMAT_X", "1"}, {"MTX_PATHS_CAM_RTSPTRANSPORT_X", "1"}, {"MTX_PATHS_CAM_RECORDDELETEAFTER_Y_Z", "1"},
+		{"MTX_RTSPTRANSPORTS_X", "0"}, {"MTX_READTIMEOUT_X", "0"}, {"MTX_RTSPENCRYPTION_X", "0"}, {"MTX_LOGLEVEL_X", "0"},
+		{"MTX_PATHDEFAULTS_RECORDFORMAT_X", "0"}, {"MTX_HLSSEGMENTMAXSIZE_X", "0"}} {
+		content := []byte("paths:\n  cam:\n    source: publisher\n")
+		_, class, res, _ := vC10Load(dir, content, vC10Env{kv[0]: "v"})
+		out.Case(cqApp("EnvSub", cqBool(kv[1] == "1"), cqBool(class == "panic")),
+			map[string]any{"kind": "env-subkey", "env": kv[0] + "=v", "result": res}, "env-subkey/"+class, class == "loaded")
+		loadCase("env-subkey-load", content, vC10Env{kv[0]: "v"}, nil)
+	}
+
+	// 3d. alwaysAvailableTracks assembled field by field through the environment
+	for _, ev := range []vC10Env{
+		{"MTX_PATHS_CAM_ALWAYSAVAILABLETRACKS_0_CODEC": "H264"},
+		{"MTX_PATHS_CAM_ALWAYSAVAILABLETRACKS_0_CODEC": "H264", "MTX_PATHS_CAM_ALWAYSAVAILABLETRACKS_0_SAMPLERATE": "100"},
+		{"MTX_PATHS_CAM_ALWAYSAVAILABLETRACKS_0_CODEC": "bogus"},
+		{"MTX_PATHS_CAM_ALWAYSAVAILABLETRACKS_0_SAMPLERATE": "48000"},
+		{"MTX_PATHS_CAM_ALWAYSAVAILABLETRACKS_0_CODEC": "MPEG4Audio"},
+		{"MTX_PATHS_CAM_ALWAYSAVAILABLETRACKS_0_CODEC": "MPEG4Audio", "MTX_PATHS_CAM_ALWAYSAVAILABLETRACKS_0_SAMPLERATE": "48000", "MTX_PATHS_CAM_ALWAYSAVAILABLETRACKS_0_CHANNELCOUNT": "2"},
+		{"MTX_PATHS_CAM_ALWAYSAVAILABLETRACKS_0_CODEC": "G711", "MTX_PATHS_CAM_ALWAYSAVAILABLETRACKS_0_SAMPLERATE": "7999", "MTX_PATHS_CAM_ALWAYSAVAILABLETRACKS_0_CHANNELCOUNT": "1"},
+		{"MTX_PATHDEFAULTS_ALWAYSAVAILABLETRACKS_0_CODEC": "LPCM"},
+		{"MTX_PATHS_CAM_ALWAYSAVAILABLETRACKS_1_CODEC": "bogus"},
+	} {
+		for _, content := range []string{"paths:\n  cam:\n    alwaysAvailable: yes\n", "paths:\n  cam:\n    alwaysAvailable: yes\n    alwaysAvailableTracks: [{codec: Opus}]\n", "paths:\n  cam:\n"} {
+			loadCase("env-tracks", []byte(content), ev, nil)
+		}
 	}
 
 	// 4. fixed corpus
